@@ -308,6 +308,7 @@ struct Sys {
 			if (vmt) LIB(vmt->convert(mpt::TypeConfigPtr, &view));
 		}
 	}
+	~Sys() { if (root) { delete root; root = 0; } if (vmt) { vmt->unref(); vmt = 0; } }
 	mpt::config *iface(int target) const { return target ? view : (job.kind == CXX ? (mpt::config *) root : (mpt::config *) 0); }
 	const char *store(int target) const { return job.kind == VIEW ? (target ? "view" : "view,via-global") : kindname[job.kind]; }
 	Key full(int target, const PSpec &p) const { if (!target) return p.key; Key k = base; k.insert(k.end(), p.key.begin(), p.key.end()); return k; }
@@ -544,8 +545,6 @@ static void warm_up(const Job &job)
 		Enum e; mpt::path empty;
 		if (job.kind == CXX) s.root->query(0, enum_top, &e); else mpt::mpt_config_query(0, &empty, enum_top, &e);
 		mpt::mpt_config_set(0, 0, 0, '.', 0);
-		if (s.root) delete s.root;
-		if (s.vmt) s.vmt->unref();
 	}
 	asan_error();
 	ledger_reset();
@@ -617,10 +616,73 @@ static std::string hist_str(const Job &job, const Vec &h)
 	for (size_t i = 1; i < h.size(); ++i) s += (i > 1 ? " ; " : "") + opname(job, (int) h[i]);
 	return s.empty() ? "(empty)" : s;
 }
+// private C++ root: no process-wide state is involved, histories are replayed on a fresh object inside the worker
+// (a fault is attributed by the engine through r.enter / r.hint and the job is resumed behind the faulting history)
+static Out step_inproc(Run &r, const Job &job, const Vec &v, std::string &precanon)
+{
+	Out out;
+	warm_up(job);
+	Sys s(job, out);
+	bool ok = true;
+	if (v.size() <= 2) { s.sweep("init|" + std::string(kindname[job.kind]) + "|-", Key(), REMOVE, "initial state"); precanon = out.canon; }
+	for (size_t i = 1; i < v.size() && ok; ++i) {
+		const OpSpec &o = job.ops[v[i]];
+		r.hint((std::string(o.kind == ASSIGN ? "assign" : "remove") + "|" + s.store(o.target) + "|" + Sys::pclass(pool[o.path]).substr(0, Sys::pclass(pool[o.path]).find(','))).c_str());
+		if (i + 1 == v.size()) out.cnt.clear();      // counters describe the last step only
+		ok = s.apply(o, i + 2 >= v.size());
+		if (i + 2 == v.size()) precanon = out.canon;
+	}
+	if (ok && v.size() > 1) {
+		const OpSpec &o = job.ops[v.back()];
+		s.teardown(std::string(o.kind == ASSIGN ? "assign" : "remove") + "|" + s.store(o.target) + "|" + Sys::pclass(pool[o.path]), "history ending with " + opname(job, (int) v.back()));
+	}
+	return out;
+}
+static void explore_inproc(Run &r, const Job &job)
+{
+	std::unordered_set<Hash128, Hash128H> seen;
+	struct Node { Vec h; Hash128 canon; };
+	std::deque<Node> frontier;
+	uint64_t capped = 0; size_t maxdepth = 0;
+	{
+		Vec h0(1, 0); std::string pc;
+		if (!r.enter(h0, "init")) return;
+		Out o = step_inproc(r, job, h0, pc);
+		for (auto &x : o.viols) r.violation_at(x.first, h0, x.second);
+		if (!o.viols.empty()) return;
+		seen.insert(hash128(o.canon)); ++r.states;
+		frontier.push_back(Node{h0, hash128(o.canon)});
+	}
+	while (!frontier.empty()) {
+		Node n = frontier.front(); frontier.pop_front();
+		if ((int) n.h.size() - 1 >= job.depth) { ++capped; continue; }
+		if (r.expired()) return;
+		for (size_t op = 0; op < job.ops.size(); ++op) {
+			Vec v = n.h; v.push_back(op);
+			if (!r.enter(v, "")) continue;
+			std::string pc;
+			Out o = step_inproc(r, job, v, pc);
+			++r.transitions; ++r.executions;
+			if (!(hash128(pc) == n.canon)) { r.violation_at("ENGINE|nondeterministic-replay", v, "history prefix did not reproduce its canonical state: " + hist_str(job, n.h)); r.incomplete("nondeterministic replay"); return; }
+			for (auto &c : o.cnt) r.count(c.first, c.second);
+			if (!o.viols.empty()) { for (auto &x : o.viols) r.violation_at(x.first, v, hist_str(job, v) + " :: " + x.second); continue; }
+			Hash128 h = hash128(o.canon);
+			if (seen.insert(h).second) {
+				frontier.push_back(Node{v, h}); ++r.states;
+				if (v.size() - 1 > maxdepth) maxdepth = v.size() - 1;
+				if (v.size() == 4) r.sample(job.name + ": " + hist_str(job, v));
+			}
+		}
+	}
+	r.count("states-left-unexpanded-at-depth-bound", capped);
+	r.count(capped ? "jobs-bounded-by-depth" : "jobs-explored-to-closure");
+	r.count(fmt("max-history-length(%s)", job.name.c_str()), maxdepth);
+}
 static void explore_store(Run &r, const Job &job)
 {
 	r.additive = false;
 	r.require("nontrivial"); r.require("assign:overwrite"); r.require("query:hit-expected"); r.require("query:absence-expected");
+	if (job.kind == CXX) { explore_inproc(r, job); return; }
 	g_phase = (char *) mmap(0, 4096, PROT_READ | PROT_WRITE, MAP_SHARED | MAP_ANONYMOUS, -1, 0);
 	std::unordered_set<Hash128, Hash128H> seen;
 	std::deque<Vec> frontier;
